@@ -7,7 +7,7 @@ STUB_E1 = ["global allocator (deterministic auditing arena at a fixed address)",
 
 ASSUME_E1 = [
     "sampling: a clean batch is evidence, not proof",
-    "brood is exercised through the harness component zoo (plain, zero-sized, boxed, 64-aligned, one-byte, Vec-owning, 16-aligned, and one without a destructor) and the generated call-site catalogues for a 7-component registry (and, for C01 C03 C04 C05 C06 C10 C11 C13 C17, a 10-component registry with two identifier bytes; for C01 C06 C11 C13 an 8-component registry with no padding bits, run on a world without resources; for C01 C03 C13 a 9-component registry; for C01 C02 C06 C11 C13 the empty registry)",
+    "brood is exercised through the harness component zoo (plain, zero-sized, boxed, 64-aligned, one-byte, Vec-owning, 16-aligned, and one without a destructor) and the generated call-site catalogues for a 7-component registry and, with smaller samples, a 10-component registry (two identifier bytes), a 9-component one, an 8-component one (no padding bits, run on a world without resources) and, for C01 C02 C06 C11 C13, the empty registry",
     "the reference model (BTreeMap of identifier -> component values) is trusted",
     "the dump hook (World::verif_dump, cfg brood_verif) reports the structures faithfully",
 ]
@@ -55,6 +55,23 @@ for _p, _q, _t in (("C01", 20000, 200000), ("C02", 20000, 200000), ("C06", 20000
 for _p, _q, _t in (("C01", 30000, 300000), ("C03", 30000, 300000), ("C13", 30000, 300000)):
     for _tier, _n in (("quick", _q), ("thorough", _t)):
         PLAN[_p][_tier] = PLAN[_p][_tier] + [{"binary": "worldsim9", "package": "worldsim9", "profile": _p, "runs": _n, "chunks_per_job": 2}]
+
+# Every E1 property on every registry size it can depend on (smaller samples than on R7).
+def _add(binname, prop, q, t, chunks=2):
+    for _tier, _n in (("quick", q), ("thorough", t)):
+        if not any(j["binary"] == binname for j in PLAN[prop][_tier]):
+            PLAN[prop][_tier] = PLAN[prop][_tier] + [{"binary": binname, "package": binname, "profile": prop, "runs": _n, "chunks_per_job": chunks}]
+
+
+for _p in ("C02", "C15", "C16"):
+    _add("worldsim10", _p, 30000, 300000)
+for _p in ("C03", "C04", "C05", "C10", "C02", "C16"):
+    _add("worldsim8", _p, 20000, 200000)
+for _p in ("C04", "C05", "C06", "C10", "C02", "C15", "C16"):
+    _add("worldsim9", _p, 20000, 200000)
+_add("worldsim9", "C11", 24, 300, chunks=4)
+_add("worldsim8", "C17", 240, 3600, chunks=4)
+_add("worldsim9", "C17", 240, 3600, chunks=4)
 
 # Thorough tier of C05: the same seeds (histories capped at 25 operations) under the Miri interpreter.
 PLAN["C05"]["thorough"] = PLAN["C05"]["thorough"] + [{"binary": "miri:worldsim", "package": "worldsim", "profile": "C05", "runs": 192, "chunks_per_job": 1,
